@@ -166,6 +166,12 @@ Fold(r, i, kinds) ==
        ELSE Fold(r, i + 1, kinds \cup RejectKinds(s))
 
 AllowedKinds(r) == Fold(r, 1, {})
+
+\* the stage that decides the fate of r: the first that must reject, else the first that may reject
+FirstWith(r, vs) ==
+  LET idx == {i \in 1..Len(StageSeq) : Verdict(StageSeq[i], r) \in vs} IN
+  IF idx = {} THEN "none" ELSE StageSeq[CHOOSE i \in idx : \A j \in idx : i <= j]
+Issue(r) == IF FirstWith(r, {"reject"}) # "none" THEN FirstWith(r, {"reject"}) ELSE FirstWith(r, {"any"})
 MustAccept(r) == AllowedKinds(r) = {"proper"}
 MustReject(r) == "proper" \notin AllowedKinds(r)
 
